@@ -402,6 +402,10 @@ func c04Run(w *W) {
 	w.SetShape("ctxs", nctx)
 	w.SetShape("pipes", npipes)
 	w.SetShape("bounded", bounded)
+	if w.Choose(simrt.SShape, 6) == 0 {
+		w.AlignIDSeed(uint32(w.Choose(simrt.SShape, 4)))
+		w.SetShape("ids_cross_wrap", true)
+	}
 	b := newReqBench(w, R, nctx, npipes, bounded)
 	defer b.s.Close()
 	unit := R
